@@ -55,6 +55,9 @@ func (x *runner) one(n *s2t.Node, class string) {
 	line := fmt.Sprintf("T %s | 0 %d %s %s %s | %s", spec, encLen, s2t.HexDigest(enc), decStatus, equal, decTree)
 	c.Case(line, key, n.Count() > 0)
 	c.Count("outcome/decode-" + decStatus)
+	if x.r.Intn(3) == 0 {
+		defer x.equalCases(n)
+	}
 
 	// ---------------- implementation-level oracle (the property, no model) ----------------
 	fail := func(what string) { c.Fail(what, "T "+trunc(spec)) }
@@ -150,6 +153,140 @@ func showNode(n *s2t.Node, sb *strings.Builder) {
 		n.Spec(sb)
 	}
 	n.Gen = g
+}
+
+// perturb returns a tree that differs from n in exactly one logical respect (an element value,
+// the element count, the element width, the item type, the LSH), or nil.
+func perturb(n *s2t.Node, r *rand.Rand) *s2t.Node {
+	cp := *n
+	cp.Gen = false
+	switch n.Kind {
+	case 'L':
+		if len(n.Kids) > 0 && r.Intn(3) > 0 {
+			i := r.Intn(len(n.Kids))
+			k := perturb(n.Kids[i], r)
+			if k == nil {
+				return nil
+			}
+			cp.Kids = append([]*s2t.Node(nil), n.Kids...)
+			cp.Kids[i] = k
+			return &cp
+		}
+		cp.Kids = append(append([]*s2t.Node(nil), n.Kids...), &s2t.Node{Kind: 'L'})
+		return &cp
+	case 'B', 'A', 'J', 'W':
+		switch r.Intn(4) {
+		case 0:
+			cp.Kind = map[byte]byte{'B': 'A', 'A': 'J', 'J': 'B', 'W': 'A'}[n.Kind]
+		case 1:
+			if n.Kind == 'W' {
+				cp.LSH = n.LSH ^ 1
+				break
+			}
+			fallthrough
+		case 2:
+			cp.Bytes = append(append([]byte(nil), n.Bytes...), 0)
+		default:
+			if len(n.Bytes) == 0 {
+				return nil
+			}
+			cp.Bytes = append([]byte(nil), n.Bytes...)
+			cp.Bytes[r.Intn(len(cp.Bytes))] ^= 1 << uint(r.Intn(8))
+		}
+		return &cp
+	case 'O':
+		if len(n.Bools) == 0 || r.Intn(3) == 0 {
+			cp.Bools = append(append([]bool(nil), n.Bools...), false)
+			return &cp
+		}
+		cp.Bools = append([]bool(nil), n.Bools...)
+		i := r.Intn(len(cp.Bools))
+		cp.Bools[i] = !cp.Bools[i]
+		return &cp
+	case 'I':
+		switch {
+		case r.Intn(4) == 0 && n.W < 8: // same values, wider type
+			cp.W = n.W * 2
+		case len(n.Ints) == 0 || r.Intn(4) == 0:
+			cp.Ints = append(append([]int64(nil), n.Ints...), 0)
+		default:
+			cp.Ints = append([]int64(nil), n.Ints...)
+			i := r.Intn(len(cp.Ints))
+			if cp.Ints[i] > 0 {
+				cp.Ints[i]--
+			} else {
+				cp.Ints[i]++
+			}
+		}
+		return &cp
+	case 'U':
+		switch {
+		case r.Intn(4) == 0 && n.W < 8:
+			cp.W = n.W * 2
+		case len(n.Uints) == 0 || r.Intn(4) == 0:
+			cp.Uints = append(append([]uint64(nil), n.Uints...), 0)
+		default:
+			cp.Uints = append([]uint64(nil), n.Uints...)
+			cp.Uints[r.Intn(len(cp.Uints))] ^= 1
+		}
+		return &cp
+	case 'F':
+		if len(n.Uints) == 0 || r.Intn(4) == 0 {
+			cp.Uints = append(append([]uint64(nil), n.Uints...), 0)
+			return &cp
+		}
+		cp.Uints = append([]uint64(nil), n.Uints...)
+		i := r.Intn(len(cp.Uints))
+		if r.Intn(2) == 0 {
+			cp.Uints[i] ^= 1 << uint(8*n.W-1) // sign bit: +0 / -0 and +x / -x are different values
+		} else {
+			cp.Uints[i] ^= 2 // a low mantissa bit (never turns a quiet NaN into a signalling one)
+		}
+		return &cp
+	}
+	return nil
+}
+
+// equalCases: Equal must be true for the same logical value built by a different argument shape,
+// and false for a tree that differs in one respect.  Case line:  Q <tree> | <tree'> | <equal>
+func (x *runner) equalCases(n *s2t.Node) {
+	c := x.c
+	if n.HasEmptyChild() || n.Nodes() > 400 || n.Gen {
+		return
+	}
+	a := s2t.Build(n, x.r, func(string) {})
+	b := s2t.Build(n, x.r, func(string) {})
+	if a.Error() != nil || b.Error() != nil {
+		return
+	}
+	spec := n.SpecString()
+	if len(spec) > 3000 {
+		return
+	}
+	eq := secs2.Equal(a, b)
+	c.Case(fmt.Sprintf("Q %s | %s | %s", spec, spec, vh.B01(eq)), "Q"+spec, true)
+	c.Count("equal/same-value")
+	if !eq {
+		c.Fail("Equal is false for the same logical value built by two argument shapes", "Q "+trunc(spec))
+	}
+	p := perturb(n, x.r)
+	if p == nil {
+		return
+	}
+	pi := s2t.Build(p, x.r, func(string) {})
+	if pi.Error() != nil {
+		return
+	}
+	ps := p.SpecString()
+	if len(ps) > 3000 {
+		return
+	}
+	eq = secs2.Equal(a, pi)
+	c.Case(fmt.Sprintf("Q %s | %s | %s", spec, ps, vh.B01(eq)), "Q"+spec+"|"+ps, true)
+	c.Count("equal/perturbed")
+	if eq || secs2.Equal(pi, a) {
+		c.Fail("Equal is true for items that differ in one element/type/size", "Q "+trunc(spec)+" | "+trunc(ps))
+	}
 }
 
 func trunc(s string) string {
